@@ -37,9 +37,29 @@ func (c05) Rule() string {
 
 type side struct {
 	conn net.Conn
+	mu   sync.Mutex // got and eof are written by readAll while the script looks at them
 	got  bytes.Buffer
 	eof  bool
 	done chan struct{}
+}
+
+func (s *side) gotLen() int {
+	s.mu.Lock()
+	defer s.mu.Unlock()
+	return s.got.Len()
+}
+
+// gotBytes is a copy of what has arrived so far.
+func (s *side) gotBytes() []byte {
+	s.mu.Lock()
+	defer s.mu.Unlock()
+	return append([]byte{}, s.got.Bytes()...)
+}
+
+func (s *side) sawEOF() bool {
+	s.mu.Lock()
+	defer s.mu.Unlock()
+	return s.eof
 }
 
 func (s *side) readAll() {
@@ -47,9 +67,13 @@ func (s *side) readAll() {
 	for {
 		s.conn.SetReadDeadline(time.Now().Add(3 * time.Second))
 		n, err := s.conn.Read(buf)
+		s.mu.Lock()
 		s.got.Write(buf[:n])
 		if err != nil {
 			s.eof = err == io.EOF
+		}
+		s.mu.Unlock()
+		if err != nil {
 			close(s.done)
 			return
 		}
@@ -167,7 +191,7 @@ func (c05) Exec(op string) string {
 						return
 					default:
 					}
-					if !wantEOF && s.got.Len() >= want {
+					if !wantEOF && s.gotLen() >= want {
 						time.Sleep(20 * time.Millisecond) // anything extra (duplicates) would show up now
 						return
 					}
@@ -182,7 +206,7 @@ func (c05) Exec(op string) string {
 				case <-s.done:
 				default:
 				}
-				got := s.got.Bytes()
+				got := s.gotBytes()
 				content := "ok"
 				if !bytes.Equal(got, sent[:minInt(len(got), len(sent))]) || len(got) > len(sent) {
 					content = "bad"
@@ -190,7 +214,7 @@ func (c05) Exec(op string) string {
 				eof := "f"
 				select {
 				case <-s.done:
-					if s.eof {
+					if s.sawEOF() {
 						eof = "t"
 					}
 				default:
@@ -258,7 +282,7 @@ func (c05) Exec(op string) string {
 			case <-time.After(3 * time.Second):
 			}
 			content := "ok"
-			got := bs.got.Bytes()
+			got := bs.gotBytes()
 			if !bytes.Equal(got, data[:minInt(len(got), len(data))]) {
 				content = "bad"
 			}
